@@ -16,3 +16,30 @@ Fixpoint mism_from (i : nat) (cs : list case) : list (nat * nat) :=
                 end
   end.
 Definition mismatches (cs : list case) := mism_from 0 cs.
+
+(* JCase: an access chain over json(...) evaluated in row and batch mode, compared with
+   Model/Json.v by Corr/C10Json.v (codes there).  The case files define their list with the
+   type [xcase]; the cases above are embedded under the name [Case]. *)
+From KV Require Import Corr.C10Json.
+
+Inductive xcase :=
+  | XBase (c : case)
+  | XJson (j : jcase).
+Definition XCase (e : expr) (rows : list (bytes * bytes * obs)) : xcase := XBase (Case e rows).
+Definition XJCase (e : expr) (rows : list (bytes * bytes * jobs)) (b : jbobs) : xcase := XJson (JCase e rows b).
+
+Definition xcheck_case (c : xcase) : nat :=
+  match c with
+  | XBase b => check_case b
+  | XJson j => check_jcase j
+  end.
+
+Fixpoint xmism_from (i : nat) (cs : list xcase) : list (nat * nat) :=
+  match cs with
+  | [] => []
+  | c :: cs' => match xcheck_case c with
+                | 0 => xmism_from (S i) cs'
+                | k => (i, k) :: xmism_from (S i) cs'
+                end
+  end.
+Definition xmismatches (cs : list xcase) : list (nat * nat) := xmism_from 0 cs.
